@@ -559,3 +559,73 @@ def probe_create_mismatches(fn: ast.AST) -> List[tuple]:
                 if fresh and ast.unparse(created) != ast.unparse(probed):
                     out.append((n, ast.unparse(probed), ast.unparse(created)))
     return out
+
+
+def truthy_at(fn: ast.AST, qual: str, site: ast.AST, name: str) -> bool:
+    """On every path to the statement containing *site*, is the local *name* known to be truthy / not None - whether the code says
+    ``if x: use(x)`` or ``if not x: continue ... use(x)`` or ``if x is None: return`` (decided on the flow graph)."""
+    from .cfg import Flow, build_cfg
+    cfg = build_cfg(fn, qual)
+    target = None
+    for n in cfg.stmt_nodes():
+        if n.ast is not None and any(x is site for x in ast.walk(n.ast)):
+            if target is None or len(list(ast.walk(n.ast))) < len(list(ast.walk(target.ast))):
+                target = n           # the innermost statement / test that holds the site
+    if target is None:
+        return False
+
+    def transfer(node, fact, label):
+        known = fact
+        if node.kind == "stmt" and label != "exc":
+            a = node.ast
+            tg = []
+            if isinstance(a, ast.Assign):
+                tg = a.targets
+            elif isinstance(a, (ast.AugAssign, ast.AnnAssign)):
+                tg = [a.target]
+            for t in tg:
+                for x in ast.walk(t):
+                    if isinstance(x, ast.Name) and x.id == name:
+                        known = False
+        if node.kind == "iter" and label == "loop" and any(isinstance(x, ast.Name) and x.id == name for x in ast.walk(getattr(node.ast, "target", node.ast))):
+            known = False
+        if node.kind == "test" and label in ("true", "false"):
+            for atom, truth in implied(node.ast, label == "true"):
+                if isinstance(atom, ast.Name) and atom.id == name and truth:
+                    known = True
+                if isinstance(atom, ast.Compare) and len(atom.ops) == 1 and isinstance(atom.ops[0], ast.Is) and isinstance(atom.left, ast.Name) \
+                        and atom.left.id == name and isinstance(atom.comparators[0], ast.Constant) and atom.comparators[0].value is None and not truth:
+                    known = True
+        return [known]
+    flow = Flow(cfg, [False], transfer)
+    facts = flow.at[target.id]
+    return bool(facts) and all(facts)
+
+
+def nesting_atoms(fn: ast.AST, target: ast.AST) -> List[Tuple[ast.AST, bool]]:
+    """The atoms implied by the ifs that enclose *target* in *fn* (body -> test true, orelse -> test false; see implied())."""
+    out: List[Tuple[ast.AST, bool]] = []
+
+    def rec(stmts) -> bool:
+        for st in stmts:
+            if st is target or any(x is target for x in ast.walk(st)):
+                if isinstance(st, ast.If) and not any(x is target for x in ast.walk(st.test)):
+                    inb = any(x is target for b in st.body for x in ast.walk(b))
+                    out.extend(implied(st.test, inb))
+                    return rec(st.body if inb else st.orelse)
+                for fld in ("body", "orelse", "finalbody"):
+                    blk = getattr(st, fld, None)
+                    if isinstance(blk, list) and blk and isinstance(blk[0], ast.stmt) and any(x is target for b in blk for x in ast.walk(b)):
+                        return rec(blk)
+                for h in getattr(st, "handlers", []):
+                    if any(x is target for b in h.body for x in ast.walk(b)):
+                        return rec(h.body)
+                return True
+        return False
+    rec(list(getattr(fn, "body", [])))
+    return out
+
+
+def under_condition(fn: ast.AST, target: ast.AST, pred) -> bool:
+    """Is *target* nested under ifs that imply an atom (atom, truth) accepted by *pred*?"""
+    return any(pred(a, t) for a, t in nesting_atoms(fn, target))
